@@ -20,11 +20,34 @@ let nlist f = let n = ni () in List.init n (fun _ -> f ())
 let ntext () = let h = nx () in if h = "-" then [] else
   List.init (String.length h / 2) (fun i -> z_of_int (int_of_string ("0x" ^ String.sub h (2*i) 2)))
 
+(* a Python str: the hex digits are its UTF-8 encoding, the model works on the CODE POINTS (the harness only sends valid UTF-8) *)
+let nstr () = let h = nx () in if h = "-" then [] else begin
+  let n = String.length h / 2 in
+  let b i = int_of_string ("0x" ^ String.sub h (2*i) 2) in
+  let rec go i acc = if i >= n then List.rev acc else
+    let c = b i in
+    let cont k = if i + k < n && (b (i + k)) land 0xC0 = 0x80 then (b (i + k)) land 0x3F else failwith "invalid UTF-8" in
+    if c < 0x80 then go (i + 1) (c :: acc)
+    else if c land 0xE0 = 0xC0 then go (i + 2) ((((c land 0x1F) lsl 6) lor cont 1) :: acc)
+    else if c land 0xF0 = 0xE0 then go (i + 3) ((((c land 0x0F) lsl 12) lor (cont 1 lsl 6) lor cont 2) :: acc)
+    else if c land 0xF8 = 0xF0 then go (i + 4) ((((c land 0x07) lsl 18) lor (cont 1 lsl 12) lor (cont 2 lsl 6) lor cont 3) :: acc)
+    else failwith "invalid UTF-8" in
+  List.map z_of_int (go 0 []) end
+
 let ji z = string_of_int (int_of_z z)
 let jn n = string_of_int (int_of_n n)
 let jb b = if b then "true" else "false"
 let jl f l = "[" ^ String.concat "," (List.map f l) ^ "]"
 let jtext t = "\"" ^ String.concat "" (List.map (fun z -> Printf.sprintf "%02x" (int_of_z z)) t) ^ "\""
+(* a str result: printed as the hex of its UTF-8 encoding (what the harness computes with .encode()) *)
+let jstr t = let buf = Buffer.create 16 in
+  List.iter (fun z -> let c = int_of_z z in
+    let p x = Buffer.add_string buf (Printf.sprintf "%02x" x) in
+    if c < 0x80 then p c
+    else if c < 0x800 then (p (0xC0 lor (c lsr 6)); p (0x80 lor (c land 0x3F)))
+    else if c < 0x10000 then (p (0xE0 lor (c lsr 12)); p (0x80 lor ((c lsr 6) land 0x3F)); p (0x80 lor (c land 0x3F)))
+    else (p (0xF0 lor (c lsr 18)); p (0x80 lor ((c lsr 12) land 0x3F)); p (0x80 lor ((c lsr 6) land 0x3F)); p (0x80 lor (c land 0x3F)))) t;
+  "\"" ^ Buffer.contents buf ^ "\""
 let jopt f = function None -> "null" | Some x -> f x
 let jpair f g (a, b) = "[" ^ f a ^ "," ^ g b ^ "]"
 
@@ -76,10 +99,10 @@ let jsig s = "{\"ver\":" ^ ji s.s_ver ^ ",\"olen\":" ^ ji s.s_olen ^ ",\"ttl\":"
 let jhsig h = "{\"version\":" ^ ji h.hs_version ^ ",\"headers\":" ^ jl (fun x -> "[" ^ jtext x.sh_name ^ "," ^ jb x.sh_optional ^ "," ^ jopt jtext x.sh_value ^ "]") h.hs_headers
   ^ ",\"absent\":" ^ jl jtext h.hs_absent ^ ",\"software\":" ^ jopt jtext h.hs_software ^ "}"
 let jlabel = function
-  | LMtu n -> "{\"dump\":" ^ jtext n ^ ",\"sys\":null,\"generic\":false}"
-  | LOs (g, c, n, f, sys) as l -> "{\"dump\":" ^ jtext (dump_label l) ^ ",\"sys\":" ^ jl jtext sys ^ ",\"generic\":" ^ jb g ^ "}"
+  | LMtu n -> "{\"dump\":" ^ jstr n ^ ",\"sys\":null,\"generic\":false}"
+  | LOs (g, c, n, f, sys) as l -> "{\"dump\":" ^ jstr (dump_label l) ^ ",\"sys\":" ^ jl jstr sys ^ ",\"generic\":" ^ jb g ^ "}"
 let jsigv = function SMtu m -> ji m | STcp s -> jsig s | SHttp h -> jhsig h
-let jrec r = "{\"line\":" ^ ji r.rc_line ^ ",\"label\":" ^ jlabel r.rc_label ^ ",\"raw\":" ^ jtext r.rc_raw ^ ",\"sig\":" ^ jsigv r.rc_sig ^ "}"
+let jrec r = "{\"line\":" ^ ji r.rc_line ^ ",\"label\":" ^ jlabel r.rc_label ^ ",\"raw\":" ^ jstr r.rc_raw ^ ",\"sig\":" ^ jsigv r.rc_sig ^ "}"
 let jdb d = "{\"mtu\":" ^ jopt (jl jrec) d.d_mtu ^ ",\"tcp_req\":" ^ jopt (jl jrec) d.d_tcp_req ^ ",\"tcp_resp\":" ^ jopt (jl jrec) d.d_tcp_resp
   ^ ",\"http_req\":" ^ jopt (jl jrec) d.d_http_req ^ ",\"http_resp\":" ^ jopt (jl jrec) d.d_http_resp ^ ",\"len\":" ^ ji (db_len d) ^ "}"
 
@@ -111,28 +134,28 @@ let dispatch cmd =
   | "parse_options" -> let syn = nb () in let b = ntext () in jres jopts (parse_options b syn)
   | "extract" -> let v = nz () in let syn_mss = nz () in let b = ntext () in
       (match parse_packet v b with Unframed -> "\"unframed\"" | Framed r -> jres (jpacket syn_mss) r)
-  | "parse_file" -> let lines = nlist ntext in jres jdb (parse_file lines)
-  | "parse_text" -> let t = ntext () in jres jdb (parse_text t)
-  | "parse_tcp_sig" -> let t = ntext () in jres jsig (parse_tcp_sig t)
-  | "parse_http_sig" -> let t = ntext () in jres jhsig (parse_http_sig t)
-  | "parse_mtu_sig" -> let t = ntext () in jres ji (parse_mtu_sig t)
-  | "parse_os_label" -> let t = ntext () in jres jlabel (parse_os_label t)
+  | "parse_file" -> let lines = nlist nstr in jres jdb (parse_file lines)
+  | "parse_text" -> let t = nstr () in jres jdb (parse_text t)
+  | "parse_tcp_sig" -> let t = nstr () in jres jsig (parse_tcp_sig t)
+  | "parse_http_sig" -> let t = nstr () in jres jhsig (parse_http_sig t)
+  | "parse_mtu_sig" -> let t = nstr () in jres ji (parse_mtu_sig t)
+  | "parse_os_label" -> let t = nstr () in jres jlabel (parse_os_label t)
   | "dump" -> let l = nlist nz in let eol = nz () in let q = nn () in
       "[" ^ jtext (dump_layout l eol) ^ "," ^ jtext (dump_quirks q) ^ ","
       ^ jres (fun (l, e) -> "[" ^ jl ji l ^ "," ^ ji e ^ "]") (parse_layout (dump_layout l eol)) ^ ","
       ^ jres jn (parse_quirks (dump_quirks q) (z_of_int (-1))) ^ "]"
-  | "parse_layout" -> let t = ntext () in jres (fun (l, e) -> "[" ^ jl ji l ^ "," ^ ji e ^ "]") (parse_layout t)
-  | "parse_quirks" -> let v = nz () in let t = ntext () in jres jn (parse_quirks t v)
+  | "parse_layout" -> let t = nstr () in jres (fun (l, e) -> "[" ^ jl ji l ^ "," ^ ji e ^ "]") (parse_layout t)
+  | "parse_quirks" -> let v = nz () in let t = nstr () in jres jn (parse_quirks t v)
   | "read_payload" -> let t = ntext () in
       jres (fun ((d, v), hs) -> "[" ^ (match d with Request -> "\"request\"" | Response -> "\"response\"") ^ "," ^ ji v ^ ","
                                 ^ jl (fun h -> "[" ^ jtext h.ph_name ^ "," ^ jtext h.ph_value ^ "]") hs ^ "]") (read_payload t)
-  | "fp_http" -> let lines = nlist ntext in let t = ntext () in
+  | "fp_http" -> let lines = nlist nstr in let t = ntext () in
       (match parse_file lines with
        | Err e -> "{\"dberr\":" ^ jerr e ^ "}"
        | Ok d -> jres (fun ((m, dis), ((dir, v), hs)) ->
            "[" ^ jopt (fun r -> ji r.rc_line) m ^ "," ^ jb dis ^ "," ^ (match dir with Request -> "\"request\"" | Response -> "\"response\"") ^ "," ^ ji v ^ ","
            ^ jl (fun h -> "[" ^ jtext h.ph_name ^ "," ^ jtext h.ph_value ^ "]") hs ^ "]") (fp_http d t))
-  | "lookup_all" -> let lines = nlist ntext in let qs = nlist ntext in
+  | "lookup_all" -> let lines = nlist nstr in let qs = nlist nstr in
       (match parse_file lines with
        | Err e -> "{\"dberr\":" ^ jerr e ^ "}"
        | Ok d ->
@@ -142,12 +165,12 @@ let dispatch cmd =
              | Err (Crash CIndex) -> "{\"ok\":[" ^ String.concat "," (List.rev acc) ^ "]}"
              | Err e -> jerr e) in go O [] in
          jl (fun raw -> jl (one raw) [d.d_mtu; d.d_tcp_req; d.d_tcp_resp; d.d_http_req; d.d_http_resp]) qs)
-  | "history" -> let files = nlist (fun () -> nlist ntext) in
+  | "history" -> let files = nlist (fun () -> nlist nstr) in
       let rec nat_to_int = function O -> 0 | S n -> 1 + nat_to_int n in
       jl (fun (r, obs) -> "[" ^ jres (fun _ -> "true") r ^ "," ^ jl (fun n -> string_of_int (nat_to_int n)) obs ^ "]") (history loader0 files)
   | "api_history" ->
       let ops = nlist (fun () -> match ni () with
-        | 0 -> Load (nlist ntext)
+        | 0 -> Load (nlist nstr)
         | 1 -> let md = nz () in let syn = nz () in let v = nz () in let b = ntext () in FpTcp (md, syn, v, b)
         | 2 -> let v = nz () in let b = ntext () in FpMtu (v, b)
         | 3 -> FpHttp (ntext ())
@@ -158,7 +181,7 @@ let dispatch cmd =
         | OMtu (m, l) -> "{\"mtu\":[" ^ ji m ^ "," ^ jopt ji l ^ "]}"
         | OHttp (l, d) -> "{\"http\":[" ^ jopt ji l ^ "," ^ jb d ^ "]}" in
       jl jout (snd (run_ops empty_db ops))
-  | "oracle" -> let md = nz () in let st = ntext () in let syn_mss = nz () in let v = nz () in let b = ntext () in
+  | "oracle" -> let md = nz () in let st = nstr () in let syn_mss = nz () in let v = nz () in let b = ntext () in
       (match parse_tcp_sig st with
        | Err e -> "{\"sigerr\":" ^ jerr e ^ "}"
        | Ok s ->
@@ -171,7 +194,7 @@ let dispatch cmd =
               ^ ",\"tcp\":{\"sport\":" ^ ji k.k_tcp.t_sport ^ ",\"dport\":" ^ ji k.k_tcp.t_dport ^ ",\"seq\":" ^ ji k.k_tcp.t_seq ^ ",\"ack\":" ^ ji k.k_tcp.t_ack
               ^ ",\"flags\":" ^ ji k.k_tcp.t_flags ^ ",\"urg\":" ^ ji k.k_tcp.t_urg ^ ",\"payload\":" ^ jtext k.k_tcp.t_payload ^ "}"
               ^ ",\"ip\":{\"src\":" ^ jtext k.k_ip.i_src ^ ",\"dst\":" ^ jtext k.k_ip.i_dst ^ ",\"id\":" ^ ji k.k_ip.i_id ^ ",\"tos\":" ^ ji k.k_ip.i_tos ^ "}}"))
-  | "imp_tcp" -> let md = nz () in let st = ntext () in
+  | "imp_tcp" -> let md = nz () in let st = nstr () in
       let b_ver = nz () in let b_src = ntext () in let b_dst = ntext () in let b_id = nz () in let b_ipflags = nz () in let b_frag = nz () in
       let b_proto = nz () in let b_sport = nz () in let b_dport = nz () in let b_seq = nz () in let b_ack = nz () in let b_flags = nz () in
       let b_urg = nz () in let b_win = nz () in
